@@ -469,6 +469,16 @@ def witness(failure, ctx):
         cases.append(("c01-nonutf8", seeds.to_hex_bytes(seeds.HEADER + seeds.inst(5, 1, *ws) + seeds.inst(19, 2))))
     for n in range(0, 9):
         cases.append(("c01-strlen%d" % n, seeds.to_hex_bytes(seeds.HEADER + seeds.inst(7, 1, *seeds.s("x" * n)) + seeds.inst(5, 1, *seeds.s("y" * n)))))
+    # C10: OpSwitch on a selector of every supported width/kind, defined inside the function (type propagated
+    # through the defining instruction's result type), plus OpConstant of that type: must load and round-trip
+    for kind, op, width in (("int", 21, 8), ("int", 21, 16), ("int", 21, 32), ("int", 21, 64),
+                            ("float", 22, 16), ("float", 22, 32), ("float", 22, 64)):
+        tywords = seeds.inst(op, 4, width, 0) if kind == "int" else seeds.inst(op, 4, width)
+        lit = [5, 0] if width == 64 else [5]
+        m = (seeds.HEADER + seeds.inst(19, 2) + seeds.inst(33, 3, 2) + tywords + seeds.inst(43, 4, 9, *lit)
+             + seeds.inst(54, 2, 20, 0, 3) + seeds.inst(248, 21) + seeds.inst(1, 4, 8) + seeds.inst(251, 8, 22, *(lit + [23]))
+             + seeds.inst(248, 22) + seeds.inst(253) + seeds.inst(248, 23) + seeds.inst(253) + seeds.inst(56))
+        cases.append(("c10-%s%d" % (kind, width), seeds.to_hex_bytes(m)))
     p, err = ctx["vreplay"](["parse-batch"], stdin="\n".join(h for _, h in cases) + "\n", timeout=900)
     if p is None or p.returncode != 0:
         return {"found": False, "error": err or p.stderr[-300:]}
@@ -483,10 +493,10 @@ def witness(failure, ctx):
                 bad = "accepted input does not re-assemble to a fixed point"
             elif name == "seed" and o.split("words=")[1] != seedwords:
                 bad = "seed module (layout order) does not come back word-identical"
-            elif (name == "seed" or name.startswith("c01-")) and " same=1" not in o:
+            elif (name == "seed" or name.startswith("c01-") or name.startswith("c10-")) and " same=1" not in o:
                 bad = "accepted input is not reproduced instruction for instruction (C01)"
-        elif name == "seed":
-            bad = "the well-formed seed module is rejected: " + o
+        elif name == "seed" or name.startswith("c10-"):
+            bad = "a well-formed module is rejected: " + o
         elif o.startswith("Err"):
             m = re.search(r"\((\d+),(\d+)[,)]", o)
             if m and any(k in o for k in ("WordCountZero", "OpcodeUnknown", "OperandExpected", "OperandExceeded",
